@@ -1,7 +1,7 @@
 (* C08 - cells are immutable values; derived objects are isolated snapshots.  Proved on the heap model of
    Model/Heap.v, where aliasing is explicit (the functional cell model satisfies the property vacuously). *)
 From Coq Require Import NArith ZArith List Bool.
-From PTQ Require Import Base.Result Model.Heap Proofs.HeapProofs.
+From PTQ Require Import Base.Result Model.Heap Proofs.HeapProofs Proofs.HeapAtomic.
 Import ListNotations.
 
 (* whatever sequence of operations is applied later - to slices, builders or copies derived from a cell, to the
@@ -31,6 +31,19 @@ Theorem C08_isolated : forall ops o i,
 Proof. exact others_untouched. Qed.
 Print Assumptions C08_isolated.
 
+(* a store is all-or-nothing: in every reachable heap, store_bits / store_ref / store_cell / store_slice either leaves
+   the WHOLE heap as it was (the refused case: nothing of the value has been written, no other object has changed) or
+   appends exactly the value's bits and references, as they were before the store, to the target builder - and only
+   within 1023 bits / 4 references *)
+Theorem C08_store_all_or_nothing : forall ops o b addb addr,
+  payload (run_ops ops) o = Some (b, addb, addr) ->
+  step (run_ops ops) o = run_ops ops \/
+  exists bits refs, obj_view (run_ops ops) b = VBuilder bits refs /\
+     obj_view (step (run_ops ops) o) b = VBuilder (bits ++ addb) (refs ++ addr) /\
+     (addb = [] \/ length (bits ++ addb) <= 1023) /\ (addr = [] \/ length (refs ++ addr) <= 4).
+Proof. exact store_all_or_nothing. Qed.
+Print Assumptions C08_store_all_or_nothing.
+
 (* reading (hashing, ordering, serialising) changes nothing *)
 Theorem C08_read_pure : forall h c, step h (OpRead c) = h.
 Proof. reflexivity. Qed.
@@ -44,3 +57,12 @@ Example C08_example :
   cell_content 3 h 4 = Content [true; false; true] [Content [true; false; true] []] /\
   cell_content 3 h 5 = Content [true] [].
 Proof. vm_compute. repeat split; reflexivity. Qed.
+
+(* non-vacuity of the refused case: a 600-bit cell stored twice - the second store is refused and changes nothing;
+   a slice with 3 references left is refused by a builder already holding 2, bits included *)
+Example C08_refused_example :
+  let big := repeat true 600 in
+  let ops := [OpNewBuilder; OpStoreBits 0 big; OpEndCell 0; OpNewBuilder; OpStoreCell 2 1] in
+  step (run_ops ops) (OpStoreCell 2 1) = run_ops ops /\
+  obj_view (run_ops ops) 2 = VBuilder big [].
+Proof. vm_compute. split; reflexivity. Qed.
